@@ -1361,6 +1361,13 @@ def run(tier, seed, replay=None):
     # Props/C13Gen.v proves the compiled functions equal to the hand model
     ok = core.proof_stage(ctx, ["Props/C13.vo", "Model/C13CharsCase.vo", "Props/C13Gen.vo"], gen_needed=("Routes",))
     ok = core.proof_stage(ctx, ["Props/C13Gen.vo"], props_file="Props/C13Gen.v", gen_needed=("Routes",)) and ok
+    # Example level: the abstract statement parser instantiated with the one property C02's translator compiles
+    # (read-only use of C02's files; if they change shape this is reported as a note, not as a C13 failure)
+    ok_c02, _log = core.coq_make(["Proofs/C13GenC02Example.vo"], regenerate=True)
+    if ok_c02:
+        ctx.obligation("Proofs/C13GenC02Example.vo: routes instantiated with C02's compiled Newick statement parser", True)
+    else:
+        ctx.notes.append("Proofs/C13GenC02Example.v did not build (interface of C02's Gen/NewickGen.v changed?): corollary skipped")
     if not ok:
         core.broken_proof(ctx, search)
     n = 260 if tier == "quick" else 3000
